@@ -6,6 +6,7 @@ import (
 	"errors"
 	"net"
 	"fmt"
+	"io"
 
 	"Havoc/pkg/logger"
 )
@@ -176,7 +177,7 @@ func ReadSocksHeader(conn net.Conn) (SocksHeader, error) {
 	if header.ATYP == 0x1 {
 		// IP V4 address
 		header.IpDomain = make([]byte, 4)
-		n, err := reader.Read(header.IpDomain)
+		n, err := io.ReadFull(reader, header.IpDomain)
 		if err != nil {
 			return header, err
 		}
@@ -191,7 +192,7 @@ func ReadSocksHeader(conn net.Conn) (SocksHeader, error) {
 			return header, err
 		}
 		header.IpDomain = make([]byte, uint32(DomainLength))
-		n, err := reader.Read(header.IpDomain)
+		n, err := io.ReadFull(reader, header.IpDomain)
 		if err != nil {
 			return header, err
 		}
@@ -201,7 +202,7 @@ func ReadSocksHeader(conn net.Conn) (SocksHeader, error) {
 	} else if header.ATYP == 0x4 {
 		// IP V6 address
 		header.IpDomain = make([]byte, 16)
-		n, err := reader.Read(header.IpDomain)
+		n, err := io.ReadFull(reader, header.IpDomain)
 		if err != nil {
 			return header, err
 		}
